@@ -456,6 +456,7 @@ Proof.
   destruct (negb (is_dir d)) eqn:Kd; [exact I|]. apply negb_false_iff, bool_decide_eq_true in Kd.
   destruct (negb (wf_name P n)); [exact I|].
   destruct (bool_decide (is_Some (o_ents d !! n))) eqn:Ex; [exact I|]. apply bool_decide_eq_false in Ex.
+  destruct (p_wtmax P <? lenN content); [exact I|].
   destruct hi as [| hh | |]; try exact I.
   destruct (parse_handle hh) as [[i g]|]; [|exact I].
   destruct (negb (fresh P s i g)) eqn:Fr; [exact I|]. apply negb_false_iff in Fr.
